@@ -195,6 +195,15 @@ fn run(args: &Args) {
                 let cs = seed.wrapping_mul(0x1000_0000_01b3).wrapping_add(fnv(p.name)).wrapping_add((c as u64).wrapping_mul(0x9E37_79B9));
                 let mut rng = Rng::new(cs);
                 let trace = run_script(p, &mut rng, tier, c);
+                if let Ok(dir) = std::env::var("VERIF_DUMP_TRACES") {
+                    // debugging aid: one file per case with `op => output` lines (outputs truncated)
+                    let mut txt = String::new();
+                    for (o, r) in trace.ops.iter().zip(trace.outs.iter()) {
+                        txt.push_str(&format!("{} => {}\n", trunc(o, 160), trunc(r, 400)));
+                    }
+                    let _ = std::fs::create_dir_all(&dir);
+                    let _ = std::fs::write(format!("{}/{}-{}.txt", dir, p.name, c), txt);
+                }
                 local.push(CaseResult { profile: pi, case: c, seed: cs, trace });
             }
             let cases: Vec<&[String]> = local.iter().map(|r| r.trace.ops.as_slice()).collect();
